@@ -29,8 +29,8 @@ def plan(quick):
     ]
     # half a megabyte in place of every big number / byte string (one case per field name): time must stay bounded
     p += [
-        {"proto": "cmp-sign", "n": 3, "t": 2, "kinds": ["fault"], "alts": ["giant"], "fieldwise": True, "minlen": 100, "limit": 8 if quick else None},
-        {"proto": "cmp-keygen", "n": 3, "t": 1, "kinds": ["fault"], "alts": ["giant"], "fieldwise": True, "minlen": 100, "limit": 6 if quick else None},
+        {"proto": "cmp-sign", "n": 3, "t": 2, "kinds": ["fault"], "alts": ["giant"], "fieldwise": True, "minlen": 100, "limit": 14 if quick else None},
+        {"proto": "cmp-keygen", "n": 3, "t": 1, "kinds": ["fault"], "alts": ["giant"], "fieldwise": True, "minlen": 100},   # all 21 fields: six of them sampled let a relaxed bound on the modulus through
         {"proto": "frost-keygen", "n": 3, "t": 1, "kinds": ["fault"], "alts": ["giant"], "fieldwise": True},
         {"proto": "doerner-sign", "n": 2, "t": 1, "kinds": ["fault"], "alts": ["giant"], "fieldwise": True},
     ]
@@ -72,7 +72,7 @@ def run(tier):
     # a malformed chain-key contribution / RID that is committed to consistently (only the validation of the opened value stops it)
     dealers += [{"kind": "dealercheat", "proto": pr, "n": 3, "t": 1, "byz": "abc"[(i + vlib.seed()) % 3], "alt": "commit:" + a, "sched": vlib.seed() * 5 + 200 + i}
                 for i, (pr, a) in enumerate((pr, a) for pr in ("frost-keygen", "taproot-keygen", "frost-refresh", "cmp-keygen", "cmp-refresh")
-                                            for a in ("c-short", "c-long", "c-empty", "rid-short", "rid-long", "rid-empty") if pr.startswith("cmp") or a.startswith("c-"))]
+                                            for a in ("c-short", "c-long", "c-empty", "rid-short", "rid-long", "rid-empty", "n-giant") if pr.startswith("cmp") or a.startswith("c-"))]
     # the same for CMP: the polynomial a party deals is replaced at start, so that its commitment, shares and proofs agree with it
     dealers += [{"kind": "dealercheat", "proto": pr, "n": 3, "t": 1, "byz": b, "alt": a, "sched": vlib.seed() * 5 + 100 + i}
                 for i, (pr, b, a) in enumerate((pr, b, a) for pr in ("cmp-keygen", "cmp-refresh") for b in ("a", "b", "c")
